@@ -557,6 +557,13 @@ class SymEval:
                 return ("popped", path)
             return self._heap_read(path)
         self.effects.append(Eff("call", None, s, n))
+        # a call of one of the object's own methods may rewrite its fields: forget what the path-local heap knew about them
+        if f[0] == "attr" and f[1] == SELF and self.cls is not None and self.heap:
+            callee = self.prog.find_method(self.cls, f[2])
+            if callee is not None:
+                w = field_writes(self.prog, callee)
+                for k in [k for k in self.heap if root_field(k) in w]:
+                    self.heap.pop(k, None)
         # local list mutation idioms
         if f[0] == "attr" and isinstance(n.func, ast.Attribute) and isinstance(n.func.value, ast.Name) \
                 and n.func.value.id in self.env and (not is_heap_path(self.env[n.func.value.id])
@@ -732,3 +739,47 @@ def cat(a, b):
     if len(parts) == 1:
         return parts[0]
     return ("cat", tuple(parts))
+
+
+def field_writes(prog, func, _seen=None):
+    """root fields of `self` that `func` may write (stores, deletes, in-place mutation), transitively over own methods"""
+    cache = prog.__dict__.setdefault("_field_writes", {})
+    if func.qual in cache:
+        return cache[func.qual]
+    seen = _seen if _seen is not None else set()
+    if func.qual in seen:
+        return set()
+    seen.add(func.qual)
+    out = set()
+
+    def root(n):
+        while isinstance(n, (ast.Subscript, ast.Attribute)):
+            if isinstance(n, ast.Attribute) and isinstance(n.value, ast.Name) and n.value.id == "self":
+                return n.attr
+            n = n.value
+        return None
+    for n in ast.walk(func.node):
+        targets = []
+        if isinstance(n, ast.Assign):
+            targets = n.targets
+        elif isinstance(n, (ast.AugAssign, ast.AnnAssign)):
+            targets = [n.target]
+        elif isinstance(n, ast.Delete):
+            targets = n.targets
+        for t in targets:
+            for x in ([t] if not isinstance(t, (ast.Tuple, ast.List)) else t.elts):
+                r = root(x)
+                if r:
+                    out.add(r)
+        if isinstance(n, ast.Call) and isinstance(n.func, ast.Attribute):
+            if n.func.attr in ("append", "extend", "insert", "remove", "pop", "clear", "update", "setdefault", "sort", "reverse"):
+                r = root(n.func.value)
+                if r:
+                    out.add(r)
+            if isinstance(n.func.value, ast.Name) and n.func.value.id == "self" and func.cls is not None:
+                callee = prog.find_method(func.cls, n.func.attr)
+                if callee is not None:
+                    out |= field_writes(prog, callee, seen)
+    if _seen is None:
+        cache[func.qual] = out
+    return out
